@@ -59,6 +59,19 @@ def artefact_diff():
     return diffs
 
 
+def sweep_cases(quick):
+    """every code point of a range, placed in the lexical contexts where character classes matter"""
+    cps = list(range(0, 0x250)) + [0x2028, 0x2029, 0x3000, 0xFEFF, 0xFFFF, 0x10000, 0x1F600, 0x10FFFF]
+    if not quick:
+        cps = list(range(0, 0x3000)) + list(range(0xD7F0, 0xD800)) + list(range(0xE000, 0xE010)) + list(range(0xFFF0, 0x10010)) + [0x1F600, 0x10FFFF]
+    for c in cps:
+        if 0xD800 <= c <= 0xDFFF:
+            continue
+        ch = chr(c)
+        for ctx in ('"a%sb" x', "#x%sy\nz", "%s", "a%s1", "1%s2", " %s ", "q1%s", "Measure%s"):
+            yield ("sweep", ctx % ch)
+
+
 def lex_cases(rng, gr, tab, n_struct, n_random):
     """texts for the lexer differential: rendered random sentences, their layout-noised variants, random strings"""
     from gram import render
@@ -151,7 +164,7 @@ def run(tier, seed):
         res.extra["token_kinds_without_lexeme"] = missing
         n_struct, n_rand, n_par = (250, 1500, 1200) if quick else (4000, 60000, 40000)
         ok_l = True
-        for kind, text in lex_cases(rng, gr, tab, n_struct, n_rand):
+        for kind, text in list(sweep_cases(quick)) + lex_cases(rng, gr, tab, n_struct, n_rand):
             try:
                 ok_l &= compare_lexer(res, model, impl, kind, text)
             except fw.ModelError as e:
